@@ -2,7 +2,7 @@
 specified formula max(len + len/2, len + additional) with saturation."""
 import re
 from facts import callee_name, strip_refs
-from guards import describe, inlined_calls
+from guards import describe, inlined_calls, inlined_sites, anchors
 
 AG = "repr::heap_buffer::amortized_growth"
 SAT_ADD = "core::num::<impl usize>::saturating_add"
@@ -44,44 +44,40 @@ def rule_formula(ctx, rule="C12-formula"):
 
 def rule_sites(ctx, rule="C12-sites"):
     F, cg = ctx.F, ctx.cg
-    # (1) who calls the growth rule, and with what
-    callers = {}
-    for path, b in F.bodies.items():
-        for bb, t in b.calls():
-            if callee_name(t) == AG:
-                callers.setdefault(path, []).append((bb, [describe(b, b.origin_operand(a)) for a in t["args"]]))
+    # (1) who applies the growth rule (through helpers), and to what
     want = {"repr::Repr::reserve": ["repr::Repr::len(p1)", "p2"],
             "repr::heap_buffer::HeapBuffer::with_additional": ["core::str::<impl str>::len(p1)", "p2"]}
-    ctx.ob(rule, AG, "callers", set(callers) == set(want), how="growth rule applied in reserve (in-place) and with_additional (copy) only", detail="amortized_growth is called from %s" % sorted(callers))
+    callers = {}
+    for path, root in F.bodies.items():
+        if path not in anchors(F) or root.j["kind"] == "closure":
+            continue
+        for st in inlined_sites(root, lambda nm: nm == AG):
+            callers.setdefault(path, []).append(st)
+    ctx.ob(rule, AG, "callers", set(callers) == set(want), how="growth rule applied in reserve (in-place) and with_additional (copy) only", detail="amortized_growth is applied from %s" % sorted(callers))
     for path, lst in callers.items():
-        for bb, args in lst:
+        for st in lst:
             if path in want:
-                ctx.ob(rule, path, "operands", args == want[path], how="amortized_growth(old length, additional)", line=F.bodies[path].line(bb),
+                args = [st.desc(0), st.desc(1)]
+                ctx.ob(rule, path, "operands", args == want[path], how="amortized_growth(old length, additional)", line=st.line,
                        detail="growth rule applied to (%s): the base must be the old *length* and the amount the caller's `additional`" % ", ".join(args))
-    # (2) in-place growth: realloc takes exactly the rule's result
+    # (2) growth sites of reserve (wherever the arms live)
     r = F.bodies.get("repr::Repr::reserve")
     if r:
         n = 0
-        for hb, bb, t in inlined_calls(r):
-            nme = callee_name(t)
-            if hb is not r:
-                # inside an extracted helper: operands are described in the caller through describe()'s
-                # helper inlining where they matter (realloc capacity); count the site
-                if nme in ("repr::heap_buffer::HeapBuffer::with_additional", "repr::heap_buffer::HeapBuffer::realloc"):
-                    n += len([1 for _, _, ct in inlined_calls(r, depth=0) if ct.get("local_key") == hb.path]) or 1
-                continue
+        for st in inlined_sites(r, lambda nm: nm.startswith("repr::heap_buffer::HeapBuffer::")):
+            nme = st.name
             if nme == "repr::heap_buffer::HeapBuffer::realloc":
                 n += 1
-                cap = describe(r, r.origin_operand(t["args"][1]))
-                ctx.ob(rule, r.path, "realloc-capacity", cap == AG + "(repr::Repr::len(p1), p2)", line=t.get("line", 0), how="realloc(amortized_growth(len, additional))", detail="in-place growth reallocates to %s" % cap)
+                cap = st.desc(1)
+                ctx.ob(rule, r.path, "realloc-capacity", cap == AG + "(repr::Repr::len(p1), p2)", line=st.line, how="realloc(amortized_growth(len, additional))", detail="in-place growth reallocates to %s" % cap)
             if nme == "repr::heap_buffer::HeapBuffer::with_additional":
                 n += 1
-                a = [describe(r, r.origin_operand(x)) for x in t["args"]]
+                a = [st.desc(0), st.desc(1)]
                 ok = a[0] in ("repr::heap_buffer::HeapBuffer::as_str(repr::Repr::as_heap_buffer_mut(p1))", "repr::Repr::as_str(p1)", "repr::heap_buffer::HeapBuffer::as_str(repr::Repr::as_heap_buffer(p1))") and a[1] == "p2"
-                ctx.ob(rule, r.path, "copy-growth-operands:" + _ord(r, bb), ok, line=t.get("line", 0), how="with_additional(self's text, additional)", detail="growing copy made with_additional(%s)" % ", ".join(a))
+                ctx.ob(rule, r.path, "copy-growth-operands:" + st.label(), ok, line=st.line, how="with_additional(self's text, additional)", detail="growing copy made with_additional(%s)" % ", ".join(a))
             if nme in ("repr::heap_buffer::HeapBuffer::new", "repr::heap_buffer::HeapBuffer::with_capacity", "repr::heap_buffer::HeapBuffer::with_exact_capacity"):
-                ctx.ob(rule, r.path, "exact-fit-in-reserve:" + _ord(r, bb), False, line=t.get("line", 0), detail="reserve grows through %s (exact fit): n pushes cost O(n) reallocations" % nme)
-        ctx.need(rule, r.path, "growth-sites", n >= 4, "reserve has %d growth sites (in-place + three copies expected)" % n, how="%d growth sites" % n)
+                ctx.ob(rule, r.path, "exact-fit-in-reserve:" + st.label(), False, line=st.line, detail="reserve grows through %s (exact fit): n pushes cost O(n) reallocations" % nme)
+        ctx.need(rule, r.path, "growth-sites", n >= 3, "reserve has %d growth sites (in-place + copies expected)" % n, how="%d growth sites" % n)
     # (3) with_additional sizes the block by the rule
     w = F.bodies.get("repr::heap_buffer::HeapBuffer::with_additional")
     if w:
